@@ -212,10 +212,10 @@ def run(eng, rep):
     rep.not_decided += ["termination and finiteness of the returned x under every fault sequence (values)",
                         "the NaN test after the trial step and the overflow guard are mechanisms, not necessary conditions; not armed"]
     rep.assumptions.append("budget and bound guarantees (C01/C02 rules) never consult the value returned by objfun, hence hold under every fault sequence")
-    rule_selection(eng, rep, "C08-1.selection-is-NaN-total", {"NAN_CAND", "NAN_HOLDER", "NONE_HOLDER"}, "C08")
-    rule_argmin_nan_aware(eng, rep)
+    rep.guarded(rule_selection, eng, rep, "C08-1.selection-is-NaN-total", {"NAN_CAND", "NAN_HOLDER", "NONE_HOLDER"}, "C08")
+    rep.guarded(rule_argmin_nan_aware, eng, rep)
     from .c17 import rule_reselection_guard
-    rule_reselection_guard(eng, rep, rule="C08-1d.NaN-incumbent-is-replaced-on-re-sampling")
-    rule_exception_transparency(eng, rep)
-    rule_logging_code_is_exception_neutral(eng, rep)
-    rule_step_solvers_get_a_finite_model(eng, rep)
+    rep.guarded(rule_reselection_guard, eng, rep, rule="C08-1d.NaN-incumbent-is-replaced-on-re-sampling")
+    rep.guarded(rule_exception_transparency, eng, rep)
+    rep.guarded(rule_logging_code_is_exception_neutral, eng, rep)
+    rep.guarded(rule_step_solvers_get_a_finite_model, eng, rep)
